@@ -763,9 +763,22 @@ func (l *Ledger) payPegRequests(res *BlockResult, h uint32, rates map[int]uint64
 		by[id] = r
 	}
 	pay, total := proportional(rs, bank)
+	if total > bank && len(rs) > 0 {
+		x := total / bank
+		if x > 5 {
+			x = 5
+		}
+		res.Probes = append(res.Probes, fmt.Sprintf("peg_bank_oversubscribed_%dx_or_more", x))
+	}
 	for id, yield := range pay {
 		r := by[id]
 		used += yield
+		if yield == 0 && r.want > 0 {
+			res.Probes = append(res.Probes, "peg_request_with_a_share_that_rounds_to_zero")
+		}
+		if r.want == 0 {
+			res.Probes = append(res.Probes, "peg_request_worth_zero_peg")
+		}
 		f := l.fate(r.te, h)
 		// refund: what the request could have yielded at most, minus the yield, converted back (no averaging)
 		maxYield := new(big.Int).Mul(u(r.part.Amt), u(rates[r.part.Asset]))
